@@ -432,11 +432,15 @@ def select(prop, tier):
     thorough = tier == "thorough"
     hs = []
     for k in (2, 3):
-        if k == 3 and not thorough:
+        if k == 3 and not thorough and prop != "C12":
             continue
         for sname, ops in shapes(k):
             if prop == "C12":
                 for h in gen_c12(k, sname, ops, thorough):
+                    if k == 3 and not thorough:
+                        # quick tier: for K=3 only the cheap concrete-argument harnesses on four shapes
+                        if sname not in ("n2_1", "n3s_02", "n3s_10", "n3s_21") or not ("_remove_" in h[0] or "_update_node" in h[0]):
+                            continue
                     hs.append(h)
             else:
                 if not thorough and sname not in ("n3c_01", "n3s_01", "reuse"):
